@@ -36,6 +36,8 @@ def gen_case(rng):
         y = rng.standard_normal((ny, nf)) * rng.uniform(.5, 2)
         if rng.random() < .3:
             y = np.sort(y, axis=0)  # sorted column order is the easy case; most are unsorted
+    if nf >= 2 and rng.random() < .1:
+        y[:, int(rng.integers(nf))] = float(rng.uniform(-2, 2))       # a feature that is the same for every candidate
     r3 = rng.random()
     if r3 < .15:
         x, y = np.asfortranarray(x), np.asfortranarray(y)
